@@ -291,7 +291,11 @@ func (namespaceManager *NamespaceManager) GetPrefixMappingForExpansion(uriExpans
 
 func (namespaceManager *NamespaceManager) GetPrefixToExpansionMap() (result map[string]string) {
 	namespaceManager.lock.Lock()
-	result = namespaceManager.prefixToExpansionMapping
+	// hand out a copy. callers iterate and serialise the result while new namespaces are asserted
+	result = make(map[string]string, len(namespaceManager.prefixToExpansionMapping))
+	for prefix, expansion := range namespaceManager.prefixToExpansionMapping {
+		result[prefix] = expansion
+	}
 	namespaceManager.lock.Unlock()
 	return
 }
